@@ -179,6 +179,9 @@ func (o Op) String() string {
 		if o.D > 0 {
 			s += fmt.Sprintf(" break-after=%d", o.D)
 		}
+		if o.V != 0 {
+			s += fmt.Sprintf(" set-after-first=%d:%d", o.K, o.V)
+		}
 		if o.D2 > 0 {
 			s += fmt.Sprintf(" advance-after-first=%d", o.D2)
 		}
@@ -854,6 +857,10 @@ func (r *Runner) Exec(op *Op) (res Result) {
 // midIter is the body of the caller's loop over an iterator: after the first element it may move
 // the clock (Op.D2), so that later elements are judged at a later time than the first one.
 func (r *Runner) midIter(op *Op, res *Result) {
+	if op.V != 0 && len(res.Entries) == 1 {
+		// the caller's loop body writes to the cache it is iterating over (sequential engines)
+		r.C.Set(op.K, op.V)
+	}
 	if op.D2 > 0 && len(res.Entries) == 1 {
 		r.Advance(op.D2)
 	}
